@@ -111,6 +111,10 @@ func init() {
 			if c.Rng.Intn(4) == 0 {
 				pp.Levels = []int{1, 2}
 			}
+			if c.Case%6 == 4 {
+				pp.Volatile = true
+				c.Count("volatile_session_episodes", 1)
+			}
 			ep, a, all := runPubWorkload(c, pp)
 			if a == nil {
 				return
